@@ -208,7 +208,7 @@ def _pc(m):
 def model_cell(c):
     return {"number": c["number"],
             "imp": [{"p": _pc(e["p"]), "v": e["val"] or [0, 1], "cl": [_pc(x) for x in e["cl"]]} for e in c["imp_entries"]],
-            "vol": c["vol"], "u": c["u"], "ntr": c["ntr_raw"], "lat": c["lat"], "fill": c["fill"], "fill_complex": c["fill_complex"], "set_in": c["set_in"]}
+            "vol": c["vol"], "u": c["u"], "ntr": c["ntr_raw"], "lat": c["lat"], "fill": c["fill"], "fill_complex": c["fill_complex"], "fill_multi": c["fill_multi"], "set_in": c["set_in"]}
 
 
 def model_state_json(s):
@@ -230,7 +230,7 @@ def model_op(op, pre):
             else:
                 imp.append({"p": _pc(m), "v": f, "cl": [_pc(m)]})
         return ["append", {"number": s["number"], "imp": imp, "vol": ci.frac(s.get("vol")), "u": s.get("u"), "ntr": False,
-                           "lat": s.get("lat"), "fill": s.get("fill"), "fill_complex": False, "set_in": [False] * 5}]
+                           "lat": s.get("lat"), "fill": s.get("fill"), "fill_complex": False, "fill_multi": False, "set_in": [False] * 5}]
     if name == "imp":
         # the parsed tree of `imp:n,p=1` is ONE object under both particles (C03's finding): which particles share the
         # edited particle's tree is read off the live objects, the model sets them all
@@ -273,7 +273,7 @@ def canon_state(s, model):
         else:
             imp = sorted((_pc(e["p"]), Fraction(*(e["val"] or [0, 1]))) for e in c["imp_entries"])
             ntr = c["ntr_raw"]
-        cells.append((c["number"], tuple(imp), _q(c["vol"]), c["u"], ntr, c["lat"], c["fill"], c["fill_complex"]))
+        cells.append((c["number"], tuple(imp), _q(c["vol"]), c["u"], ntr, c["lat"], c["fill"], c["fill_complex"], c["fill_multi"]))
     return (tuple(cells), tuple(s["flags"]), s["vol_calc"])
 
 
@@ -352,7 +352,7 @@ def same_cards(a, b, api):
         if [(x[0], x[1]) for x in pa] != [(x[0], x[1]) for x in pb]:
             return f"cell[{i}] #{na} params {pa} vs {pb}"
         for x, y in zip(pa, pb):
-            if x[0] == "fill" and api["cells"][i]["fill_complex"]:
+            if x[0] == "fill" and (api["cells"][i]["fill_complex"] or api["cells"][i]["fill_multi"]):
                 continue
             if not _close(x[2], y[2]):
                 return f"cell[{i}] #{na} {x} vs {y}"
@@ -566,7 +566,7 @@ def run(chk):
             else:
                 j, sig, what = v2
                 upto = j
-                small = shrink_case(pure, sig, j) if len(chk.violations) < 6 else pure
+                small = shrink_case(pure, sig, j) if len(chk.violations) < 3 else pure
                 r3, d3 = run_one(small)
                 v3 = judge_case(small, r3, d3)
                 if v3 is None or v3[1] != sig:
